@@ -1535,16 +1535,20 @@ class TailGen:
         if self.shape == 'req': return [self.name, n1, a]
         if self.shape == 'opt': return [self.name, n1, a] if r.random() < 0.8 else [self.name, n1]
         return [self.name, n1, a, 'n']                      # &rest collects the extra
-    def base(self): return self.tk(self.r.choice(['acc', ['list', 'acc', 'n'], ['+', 'acc', 0]]))
+    def base(self): return self.tk(self.r.choice(['acc', ['list', 'acc', 'n'], ['+', 'acc', 0], ['if', ['<', ['mod', 'acc', 3], 1], None, 'acc'], ['if', ['<', 'acc', 2], ['nofn'], 'acc']]))
     def tail(self, d):
         r = self.r
         if d <= 0: return self.selfcall() if r.random() < 0.7 else self.base()
-        c = r.choice(['if', 'if1', 'cond', 'progn', 'let', 'let*', 'when', 'unless', 'self', 'nontail', 'and'])
+        c = r.choice(['if', 'if1', 'cond', 'progn', 'let', 'let*', 'when', 'unless', 'self', 'nontail', 'and', 'err'])
+        if c == 'err': return ['if', ['<', 'n', r.choice([2, 3])], ['nofn'], self.tail(d - 1)]
         if c == 'if': return ['if', self.cond_e(), self.tail(d - 1), self.tail(d - 1)]
         if c == 'if1': return ['if', self.cond_e(), self.tail(d - 1), ['setq', 'g', ['+', 'g', 1]], self.tail(d - 1)]
         if c == 'cond':
             cl = [[self.cond_e(), self.tail(d - 1)] for _ in range(r.choice([1, 2, 3]))]
             if r.random() < 0.3: cl.insert(r.randrange(len(cl) + 1), [self.cond_e()])
+            if r.random() < 0.25:
+                self.has_nontail = True
+                cl.insert(r.randrange(len(cl) + 1), [self.selfcall()])       # body-less clause: the self-call is a test, not a tail
             cl.append([True, self.tail(d - 1)])
             return ['cond'] + cl
         if c == 'progn': return ['progn', ['setq', 'g', ['+', 'g', 'n']], self.tail(d - 1)]
